@@ -829,7 +829,7 @@ func selftest(ids []string) int {
 			}
 		}
 		wg.Wait()
-		os.RemoveAll(td)
+		defer os.RemoveAll(td)
 		ref := dumps["p1a"]
 		bad := 0
 		for _, c := range cfgs[1:] {
@@ -841,6 +841,29 @@ func selftest(ids []string) int {
 				if dumps[c.name][k] != v {
 					if bad < 5 {
 						fmt.Printf("selftest %s: run %s differs under %s: %q vs %q\n", prop, k, c.name, v, dumps[c.name][k])
+						ki, _ := strconv.Atoi(k)
+						a, _ := os.ReadFile(filepath.Join(td, fmt.Sprintf("p1a-w%d.dump.ev%s", ki%nw, k)))
+						b, _ := os.ReadFile(filepath.Join(td, fmt.Sprintf("%s-w%d.dump.ev%s", c.name, ki%nw, k)))
+						al, bl := strings.Split(string(a), "\n"), strings.Split(string(b), "\n")
+						for i := 0; i < len(al) || i < len(bl); i++ {
+							x, y := "<end>", "<end>"
+							if i < len(al) {
+								x = al[i]
+							}
+							if i < len(bl) {
+								y = bl[i]
+							}
+							if x != y {
+								lo := i - 3
+								if lo < 0 {
+									lo = 0
+								}
+								fmt.Printf("  first difference at history line %d\n  context: %v\n  p1a: %s\n  %s: %s\n", i, al[lo:i], x, c.name, y)
+								if os.Getenv("VERIF_SELFTEST_ALLDIFF") == "" {
+									break
+								}
+							}
+						}
 					}
 					bad++
 				}
